@@ -148,8 +148,9 @@ CountsAgree(e) == ("counts" \in DOMAIN e /\ Len(e.counts) = 6) =>
    /\ e.counts[1] = NT(e)
    /\ e.counts[3] = NF(e)
    /\ (Has3D(e.kind) => e.counts[4] = NE(e))
-   /\ (NT(e) > 0 => IF e.counts[6] = 1 THEN e.counts[2] = MaxId(e) /\ e.counts[5] = NNodes(e.kind)
-                                         ELSE e.counts[2] >= MaxId(e) /\ e.counts[5] >= NNodes(e.kind))
+   \* nvertices counts at least the vertices the cells use (points of no cell may or may not be counted)
+   /\ (NT(e) > 0 => /\ e.counts[2] >= MaxId(e)
+                     /\ IF e.counts[6] = 1 THEN e.counts[5] = NNodes(e.kind) ELSE e.counts[5] >= NNodes(e.kind))
 
 ConnClauses(e) ==
   IF ~ConnWellFormed(e) THEN [WellFormed |-> FALSE]
